@@ -119,6 +119,11 @@ def check(run, driver):
             data = make_data(info, rng, n, T)
             kw = dict(method=method, information=info, max_lag=int(rng.integers(1, 3)), n_shuffles=8, alpha_forward=0.1, alpha_backward=0.1, k_means=3)
             probes.append((info, method, data, kw))
+    # neighbour estimator on integer-valued data (exact ties), all methods
+    for method in (METHODS if thorough else METHODS[::2]):
+        data = rng.poisson(2.0, size=(36, 2)).astype(float)
+        data[1:, 1] = rng.poisson(0.5 + 1.5 * data[:-1, 0])
+        probes.append(("knn", method, data, dict(method=method, information="knn", max_lag=1, n_shuffles=8, alpha_forward=0.1, alpha_backward=0.1, k_means=3)))
     fresh_spec = [{"data": p[2].tolist(), "kw": p[3]} for p in probes]
     env = dict(os.environ)
     pr = subprocess.run([sys.executable, "-c", FRESH % str(REPO)], input=json.dumps(fresh_spec), capture_output=True, text=True, env=env)
